@@ -552,6 +552,54 @@ def rule_benchmark(repo: Repo, rep: Report) -> int:
     return n
 
 
+def rule_update_atomic(repo: Repo, rep: Report) -> int:
+    """update() either accumulates a batch completely or not at all: every step that can reject the batch (a `raise`, a call
+    of a method of the class that raises - the block reshape validates the length) comes before the first accumulator is
+    advanced.  Otherwise a rejected batch leaves phantom counts behind and later results differ from the one-shot value on
+    the accepted data."""
+    n = 0
+    for file, cname in ((BER, "BitErrorRate"), (BLER, "BlockErrorRate")):
+        ci = repo.cls(file, cname)
+        upd = ci.methods.get("update")
+        if upd is None:
+            continue
+        bufs = set(buffers_of(ci))
+        raising = {nm for nm, f_ in ci.methods.items() if any(isinstance(x, ast.Raise) for x in ast.walk(f_.node))}
+        top = list(upd.body)
+
+        def writes_acc(st):
+            for x in ast.walk(st):
+                if isinstance(x, ast.AugAssign) and (attr_chain(x.target) or "")[5:] in bufs:
+                    return True
+                if isinstance(x, ast.Call) and isinstance(x.func, ast.Attribute) and x.func.attr.endswith("_") and (attr_chain(x.func.value) or "")[5:] in bufs:
+                    return True
+                if isinstance(x, ast.Assign) and any((attr_chain(t_) or "")[5:] in bufs for t_ in x.targets):
+                    return True
+            return False
+
+        def can_reject(st):
+            for x in ast.walk(st):
+                if isinstance(x, ast.Raise):
+                    return x
+                if isinstance(x, ast.Call) and (attr_chain(x.func) or "").startswith("self.") and (attr_chain(x.func) or "")[5:] in raising:
+                    return x
+            return None
+
+        first = next((i for i, st in enumerate(top) if writes_acc(st)), None)
+        n += 1
+        if first is None:
+            rep.undecided("ACC", upd, f"{cname}.update: accumulator writes", "no top-level statement advances an accumulator")
+            continue
+        late = next((can_reject(st) for st in top[first:] if can_reject(st) is not None and not (st is top[first] and can_reject(st) is not None and False)), None)
+        # a rejecting call inside the very statement that writes is evaluated before the write (right-hand side first)
+        late_nodes = [can_reject(st) for st in top[first + 1:] if can_reject(st) is not None]
+        if late_nodes:
+            rep.violation("ACC", upd, f"{cname}.update: `{unparse(top[first])[:50]}` before `{unparse(late_nodes[0])[:50]}`", "an accumulator is advanced before a step that can still reject the batch: a rejected update() (caught by the caller) leaves counts of data that was never accepted, so compute() no longer equals the one-shot value on the accepted batches, and reset() followed by a rejected update() leaves a non-zero state", node=late_nodes[0])
+        else:
+            rep.ok("ACC", upd, f"{cname}.update: every rejecting step precedes the first accumulator write", "a batch is accumulated completely or not at all", nontrivial=False)
+    return n
+
+
 def rule_count_dtype(repo: Repo, rep: Report) -> int:
     """Errors are counted in a type that holds every count exactly: a mismatch mask is summed as it is (integer result) or
     after a cast to a fixed wide type.  A cast whose target type is taken from an input (`.to(x.dtype)`, `.type_as(x)`)
@@ -564,6 +612,16 @@ def rule_count_dtype(repo: Repo, rep: Report) -> int:
             params = {p_ for p_ in fi.params if p_ not in ("self", "cls")}
             casts = [c for c in ast.walk(fi.node) if isinstance(c, ast.Call) and isinstance(c.func, ast.Attribute) and c.func.attr in ("to", "type", "type_as")]
             bad = [c for c in casts if any(isinstance(x, ast.Name) and x.id in params for a in list(c.args) + [k.value for k in c.keywords] for x in ast.walk(a)) and not any("device" in unparse(a) for a in list(c.args) + [k.value for k in c.keywords])]
+            # a real-valued cast of the compared values taken whenever they are "not floating point": complex tensors are not
+            # floating point either, and .float() silently drops their imaginary part
+            for st_ in ast.walk(fi.node):
+                if isinstance(st_, ast.If) and "is_floating_point()" in unparse(st_.test) and "is_complex" not in unparse(st_.test):
+                    neg = isinstance(st_.test, ast.UnaryOp) and isinstance(st_.test.op, ast.Not)
+                    arm = st_.body if neg else st_.orelse
+                    fl = [c for s2 in arm for c in ast.walk(s2) if isinstance(c, ast.Call) and isinstance(c.func, ast.Attribute) and (c.func.attr in ("float", "double", "half") or (c.func.attr in ("to", "type") and any("float" in unparse(a_) for a_ in c.args)))]
+                    if fl:
+                        n += 1
+                        rep.violation("ACC", fi, f"{cname}.{fi.name}: if {unparse(st_.test)}: {unparse(fl[0])[:40]}", "the compared values are cast to a real floating type whenever they are not floating point - complex inputs are not floating point either, and the cast discards their imaginary part: symbols that differ only in the quadrature component count as equal (the rate is 0 for unequal inputs, and BER > BLER becomes possible)", node=st_)
             if not casts and not bad:
                 continue
             n += 1
@@ -591,6 +649,7 @@ def run(repo: Repo, rep: Report, tier: str) -> None:
             if ev_[0] is not None:
                 rep.add("BLOCKS", repo.method(ci_, m_), f"{m_}: block error rate evaluated on discriminating error patterns (thorough tier)", OK if ev_[0] else VIOLATION, ev_[1])
     n = rule_count_dtype(repo, rep)
+    n += rule_update_atomic(repo, rep)
     n += analyse_metric(repo, rep, BER, "BitErrorRate", {})
     n += analyse_metric(repo, rep, BLER, "BlockErrorRate", {"self.reduction == 'none'": False, "self.reduction == 'sum'": False})
     n += rule_blocks(repo, rep)
